@@ -35,7 +35,7 @@ Chains == { <<m>> : m \in Compressors } \cup { <<p, m>> : p \in PreFilters, m \i
           \cup { <<"AES">> }
           \* two pre-filters in front of a native compressor (one raw lzma chain of three filters), optionally encrypted
           \* (with LZMA1 as the compressor py7zr writes such chains but cannot read them back - its reader splits BCJ off LZMA1 and is left
-          \*  with a lone pre-filter; the documentation lists no such chain, so they are outside C01's quantifier: see DESIGN.md 11.7)
+          \*  with a lone pre-filter; the documentation lists no such chain, so they are outside C01's quantifier: see DESIGN.md 11.6)
           \cup { <<x[1], x[2], "LZMA2">> : x \in { y \in {"Delta", "X86", "ARM"} \X {"Delta", "X86", "ARM"} : y[1] # y[2] } }
           \cup { <<x[1], x[2], "LZMA2", "AES">> : x \in { y \in {"Delta", "X86"} \X {"Delta", "X86"} : y[1] # y[2] } }
 
